@@ -1,0 +1,22 @@
+//go:build verif
+
+package gabi
+
+import (
+	"github.com/privacybydesign/gabi/big"
+	"github.com/privacybydesign/gabi/internal/common"
+	"github.com/privacybydesign/gabi/revocation"
+)
+
+// VerifSentinels collects the package-level integer constants of this module together with the values
+// they must keep (build tag "verif"; nothing here changes behaviour).
+func VerifSentinels() map[string][2]*big.Int {
+	all := map[string][2]*big.Int{"gabi.bigOne": {bigOne, big.NewInt(1)}}
+	for k, v := range common.VerifSentinels() {
+		all[k] = v
+	}
+	for k, v := range revocation.VerifSentinels() {
+		all[k] = v
+	}
+	return all
+}
